@@ -15,6 +15,6 @@ Definition chk_C11 (c o : value) : bool := negb (veqb o V_CRASH) && negb (veqb o
 Definition chk_C11_fs (c o : value) : bool :=
   chk_C11 c o &&
   match o with
-  | VL [VI _; VB _; VB _; VB _; VI closed] => as_bool closed
+  | VL [VI _; VB _; VB _; VB _; VI closed; VI _] => as_bool closed
   | _ => true
   end.
